@@ -129,6 +129,11 @@ fn registration(ty: u16) -> bool {
 /// Inject `bytes` on link `idx` of a clone of `base` and judge the outcome.
 fn judge(env: &mut Env, base: &World, idx: usize, bytes: &[u8]) -> Result<u64, Fail> {
     let mut w = base.clone();
+    judge_step(env, &mut w, idx, bytes)
+}
+
+/// Inject `bytes` on link `idx` of `w` (which keeps the resulting state) and judge the outcome.
+fn judge_step(env: &mut Env, w: &mut World, idx: usize, bytes: &[u8]) -> Result<u64, Fail> {
     w.advance(7);
     let now = w.now;
     let client_known = w.last_client_addr.is_some();
@@ -384,6 +389,75 @@ fn structured(now_hint: u64) -> Vec<Vec<u8>> {
     v
 }
 
+/// Acknowledgement-shaped datagrams over boundary numbers, for the two- and three-step histories
+/// (the accounting a datagram meets depends on what earlier datagrams left behind).
+fn boundary_datagrams() -> Vec<Vec<u8>> {
+    let nums: [u32; 10] = [0, 1, 999, 7000, 7200, 0x3fff_ffff, 0x7fff_ffff, 0x8000_0000, 0x8000_0001, 0xffff_ffff];
+    let mut v = Vec::new();
+    for q in nums {
+        // SRT ACK (44 bytes, number at 16..20)
+        let mut a = vec![0u8; 44];
+        a[0] = 0x80;
+        a[1] = 0x02;
+        a[16..20].copy_from_slice(&q.to_be_bytes());
+        v.push(a);
+        // SRTLA ACK with two numbers
+        let mut b = vec![0x91u8, 0x00, 0, 0];
+        b.extend_from_slice(&q.to_be_bytes());
+        b.extend_from_slice(&q.wrapping_add(1).to_be_bytes());
+        v.push(b);
+        // SRT NAK: the number alone, and as the opener of a range
+        let mut c = vec![0x80u8, 0x03, 0, 0, 0, 0, 0, 0, 0, 0, 0, 0, 0, 0, 0, 0];
+        c.extend_from_slice(&q.to_be_bytes());
+        v.push(c);
+        let mut d = vec![0x80u8, 0x03, 0, 0, 0, 0, 0, 0, 0, 0, 0, 0, 0, 0, 0, 0];
+        d.extend_from_slice(&(q | 0x8000_0000).to_be_bytes());
+        d.extend_from_slice(&q.wrapping_add(3).to_be_bytes());
+        v.push(d);
+    }
+    v
+}
+
+/// All histories of `depth` boundary datagrams (alternating links) from `base`; every step is judged.
+fn histories(env: &mut Env, base: &World, lib: &[Vec<u8>], first: usize, depth: usize, fails: &mut Vec<(Vec<usize>, Fail)>) -> u64 {
+    fn rec(env: &mut Env, w: &World, lib: &[Vec<u8>], path: &mut Vec<usize>, depth: usize, n: &mut u64, fails: &mut Vec<(Vec<usize>, Fail)>) {
+        if path.len() == depth {
+            return;
+        }
+        for i in 0..lib.len() {
+            let mut w2 = w.clone();
+            path.push(i);
+            *n += 1;
+            let link = path.len() % 2;
+            match catch_unwind(AssertUnwindSafe(|| judge_step(env, &mut w2, link, &lib[i]))) {
+                Ok(Ok(_)) => rec(env, &w2, lib, path, depth, n, fails),
+                Ok(Err(f)) => {
+                    if fails.len() < 6 {
+                        fails.push((path.clone(), f));
+                    }
+                }
+                Err(_) => {
+                    if fails.len() < 6 {
+                        fails.push((path.clone(), Fail::new("uplink-path-panic", format!("processing datagram {} of the history panicked", path.len()))));
+                    }
+                    // a panic may leave datagrams in the environment's sockets and channels: start afresh
+                    *env = Env::new();
+                }
+            }
+            path.pop();
+        }
+    }
+    let mut n = 1u64;
+    let mut w = base.clone();
+    let mut path = vec![first];
+    match catch_unwind(AssertUnwindSafe(|| judge_step(env, &mut w, 1, &lib[first]))) {
+        Ok(Ok(_)) => rec(env, &w, lib, &mut path, depth, &mut n, fails),
+        Ok(Err(f)) => fails.push((path.clone(), f)),
+        Err(_) => fails.push((path.clone(), Fail::new("uplink-path-panic", "processing datagram 1 of the history panicked".into()))),
+    }
+    n
+}
+
 /// A tagged non-internal datagram for the backlog exploration (the tag makes every one distinct).
 fn tagged(i: u32) -> Vec<u8> {
     let mut b = match i % 4 {
@@ -515,6 +589,31 @@ pub fn run(tier: Tier) -> Report {
         }
         distinct.lock().unwrap().extend(local);
     });
+    progress("C09", "two- and three-step histories of boundary acknowledgements");
+    let lib = boundary_datagrams();
+    let hist_depth = if quick { 2 } else { 3 };
+    let hist_states: Vec<usize> = if quick { vec![4, 5] } else { vec![1, 3, 4, 5, 6, 7] };
+    let hist_jobs: Vec<(usize, usize)> = hist_states.iter().flat_map(|s| (0..lib.len()).map(move |f| (*s, f))).collect();
+    par_map(hist_jobs.len(), 16, |j| {
+        let (st, first) = hist_jobs[j];
+        let mut env = Env::new();
+        let base = build_state(&mut env, st);
+        let mut fl = Vec::new();
+        let n = histories(&mut env, &base, &lib, first, hist_depth, &mut fl);
+        n_inj.fetch_add(n, Ordering::Relaxed);
+        for (path, f) in fl {
+            *fail_n.lock().unwrap().entry(f.key.clone()).or_insert(0) += 1;
+            let mut v = fails.lock().unwrap();
+            if v.iter().filter(|x| x.key == f.key).count() < 3 {
+                v.push(Violation {
+                    key: f.key.clone(),
+                    message: format!("state {}: history of {} boundary datagrams {:?}: {}", STATE_NAMES[st], path.len(), path.iter().map(|i| format!("{:02x?}", &lib[*i][..lib[*i].len().min(24)])).collect::<Vec<_>>(), f.msg),
+                    replay: json!({"exploration": "history", "state": st, "path": path}),
+                });
+            }
+        }
+    });
+    rep.set("histories", json!({"library": lib.len(), "depth": hist_depth, "states": hist_states.iter().map(|s| STATE_NAMES[*s]).collect::<Vec<_>>(), "numbers": "0, 1, 999, 7000, 7200, 0x3fffffff, 0x7fffffff, 0x80000000, 0x80000001, 0xffffffff as SRT ACK / SRTLA ACK pair / NAK / NAK range opener"}));
     progress("C09", "uplink-channel backlog exploration");
     let max_backlog: u32 = if quick { 200 } else { 600 };
     let bl_states: Vec<usize> = if quick { vec![4] } else { vec![3, 4, 5, 7] };
@@ -556,7 +655,7 @@ pub fn run(tier: Tier) -> Report {
     rep.set("sweep", json!({"type_codes": 65536, "lengths": sweep_lens, "tails": sweep_tails.len(), "structured_inputs_per_state_and_link": structured(T0).len()}));
     rep.samples.push(json!({"state": STATE_NAMES[5], "link": 0, "bytes_hex": "9100 0000 00001b58 00001c20 (SRTLA ACK: 7000 held by link 0, 7200 held by both)"}));
     rep.samples.push(json!({"state": STATE_NAMES[6], "link": 1, "bytes_hex": "9000 <now-20 as u64> (keepalive echo while a probe is outstanding)"}));
-    rep.set("oracle", json!("internal := type in {9201,9202,9210,9211,9100,9000}; client known and len>=2: not internal => client receives >=1 datagram, all byte-identical to the injected one; internal => nothing; no client => nothing; 0/1-byte datagrams change nothing; every non-registration datagram of >=2 bytes stamps last_received = now; the delivery-proof stamp of any link changes iff an SRTLA ACK retired a number from that link's log (arrival link first, else one other holder) or the arrival link got a keepalive echo of >=10 bytes while a probe was outstanding with 0 < now-ts <= 10000; nothing is sent on the uplinks except the immediate REG1 after REG_NGP; no panic (sweep runs in a child process). Backlog: with n tagged non-internal datagrams waiting on the uplink channel (alternating links), repeated arms of one kind relay every one of them byte-identical, nothing else, per-link in queue order"));
+    rep.set("oracle", json!("internal := type in {9201,9202,9210,9211,9100,9000}; client known and len>=2: not internal => client receives >=1 datagram, all byte-identical to the injected one; internal => nothing; no client => nothing; 0/1-byte datagrams change nothing; every non-registration datagram of >=2 bytes stamps last_received = now; the delivery-proof stamp of any link changes iff an SRTLA ACK retired a number from that link's log (arrival link first, else one other holder) or the arrival link got a keepalive echo of >=10 bytes while a probe was outstanding with 0 < now-ts <= 10000; nothing is sent on the uplinks except the immediate REG1 after REG_NGP; no panic (sweep runs in a child process, arithmetic overflow checks on). Histories: every sequence of 2 (thorough: 3) acknowledgement-shaped datagrams over boundary numbers, each step judged by the same rules. Backlog: with n tagged non-internal datagrams waiting on the uplink channel (alternating links), repeated arms of one kind relay every one of them byte-identical, nothing else, per-link in queue order"));
     rep.assume("byte strings: all 65536 type codes at the listed lengths and tails, all lengths 0..=64 for 16 type codes x 4 tails, all tails over {00,7f,80,ff} up to 6 bytes, crafted ACK/NAK/keepalive/handshake datagrams referring to the link state; not random long inputs");
     rep.assume("the select! glue is mirrored (world.rs) and bound by a call-order + token digest fingerprint; reader tasks / recvmmsg batching are not exercised (datagrams are injected as UplinkPacket, singly through the uplink arm or as a backlog on the channel that the arms' real drain_packet_queue works off)");
     for v in fails.lock().unwrap().drain(..) {
@@ -570,6 +669,31 @@ pub fn run(tier: Tier) -> Report {
 
 pub fn replay(v: &Value) -> Result<(), String> {
     let st = v["state"].as_u64().ok_or("MACHINERY: no state")? as usize;
+    if v["exploration"] == "history" {
+        let lib = boundary_datagrams();
+        let path: Vec<usize> = v["path"].as_array().ok_or("MACHINERY: no path")?.iter().map(|x| x.as_u64().unwrap_or(0) as usize).collect();
+        let run = || -> Option<Fail> {
+            let mut env = Env::new();
+            let mut w = build_state(&mut env, st);
+            for (k, i) in path.iter().enumerate() {
+                let link = if k == 0 { 1 } else { (k + 1) % 2 };
+                match catch_unwind(AssertUnwindSafe(|| judge_step(&mut env, &mut w, link, &lib[*i]))) {
+                    Ok(Ok(_)) => {}
+                    Ok(Err(f)) => return Some(f),
+                    Err(_) => return Some(Fail::new("uplink-path-panic", format!("processing datagram {} of the history panicked", k + 1))),
+                }
+            }
+            None
+        };
+        let (r1, r2) = (run(), run());
+        if r1.as_ref().map(|f| f.key.clone()) != r2.as_ref().map(|f| f.key.clone()) {
+            return Err("MACHINERY: two replays disagree".into());
+        }
+        return match r1 {
+            None => Ok(()),
+            Some(f) => Err(format!("[{}] {}", f.key, f.msg)),
+        };
+    }
     if v["exploration"] == "backlog" {
         let n = v["n"].as_u64().ok_or("MACHINERY: no n")? as u32;
         let arm = v["arm"].as_u64().unwrap_or(0) as usize;
